@@ -38,7 +38,7 @@ Proof.
   induction rem as [|r IH]; intros s m; simpl; autorewrite with er;
     destruct (get_m s m) as [x|]; simpl option_map; cbv iota; auto.
   - autorewrite with er. reflexivity.
-  - autorewrite with er. destruct (m_bad x).
+  - autorewrite with er. destruct (nth (m_idx x) (m_bad x) false).
     + rewrite IH. autorewrite with er. reflexivity.
     + destruct (E_try_start s m x) as [H1 H2].
       destruct (try_start s m x) as [s' c], (try_start (E s) m (erase_mtask x)) as [s'' c'].
